@@ -83,6 +83,11 @@ def racyKeys : List Key := builtOfClass .racy
 /-- Compiled objects that are accessed without synchronisation but idempotently. -/
 def benignKeys : List Key := builtOfClass .idempotentInit
 
+/-- The reviewed `done` flags of the lazily initialised tables are stored after the tables they guard
+(statement order in the C source): the premise `FlagLast` of `LA.LazyInit.lazy_init_safe`. -/
+def flagsStoredLast : Bool :=
+  flagStoredLast.all (fun e => e.2.2 && classOf (e.1, e.2.1) == some .idempotentInit)
+
 /-- Process-wide libc state: each importing (file, function) pair must be reviewed as a documented exception
 or as serialised by a lock; nothing stale. -/
 def processWideClosed : Bool :=
